@@ -71,6 +71,25 @@ pub fn child(args: &[String]) {
                 }
             }
         }
+        // async programs (hand-rolled wakers kept in shared slots, aborts, detaches, nested block_on)
+        // and hand-polled / cancelled / moved semaphore acquisitions
+        "async" => {
+            let mut rng = Rng::new(17);
+            let mut acc = crate::oracle::Acc::default();
+            for i in 0..(n / 2 + 1) {
+                let p = super::c17::gen_prog(&mut rng, 2 + i % 4);
+                super::c17::one_prog(&p, [0usize, 2, 6][i % 3], rng.next(), 6, &mut acc);
+            }
+            for w in 0..4 {
+                super::c18::run_scenario(w, &mut acc);
+            }
+            for i in 0..(n / 2 + 1) {
+                let nclients = 2 + i % 3;
+                let sc = super::c18::gen_script(&mut rng, nclients, 12);
+                super::c18::run_script(&sc, 1 + i % 4, nclients, [0usize, 2][i % 2], rng.next(), &mut acc);
+            }
+            done = acc.evaluations as usize;
+        }
         // the schedule codec on generated and malformed strings
         _ => {
             use super::c16::*;
